@@ -8,6 +8,10 @@
 -/
 import PPVerif.Generated.C21
 import PPVerif.Generated.C23
+import PPVerif.Generated.C02
+import Mathlib.Tactic.Linarith
+import Mathlib.Analysis.Real.Sqrt
+import Mathlib.Data.Real.Sign
 import Mathlib.Tactic.Ring
 import Mathlib.Tactic.FieldSimp
 import Mathlib.Algebra.CharZero.Defs
@@ -51,5 +55,41 @@ end formulas
 
 /-- `_ppc2mpc` rewrites only the ratio column (index 8 = TAP) of branches without transformer -/
 theorem C21_mpc_touches_tap_only : mpcTouched = ["8"] := by decide
+
+/-! ## transformers: from_ppc's vk / vkr (Generated.C21) fed to the power flow's `_calc_r_x_from_dataframe` (Generated.C02) -/
+section trafo
+open PPVerif.Generated.C02
+
+/-- from_ppc → power flow: the transformer created from a per-unit branch (r, x), rated power snt, on a net with the same base
+    power and with the bus voltage equal to the transformer's rated voltage, gets back exactly r as series resistance -/
+theorem C21_trafo_r_round_trip (r snt sn vn : ℝ) (hs : snt ≠ 0) (hn : sn ≠ 0) (hv : vn ≠ 0) :
+    trafoZsc (tVkr r snt sn) snt vn vn sn = r := by
+  unfold trafoZsc tVkr; field_simp
+
+theorem C21_trafo_z_round_trip (r x snt sn vn : ℝ) (hs : snt ≠ 0) (hn : sn ≠ 0) (hv : vn ≠ 0) :
+    trafoZsc (tVk (Real.sign x) (Real.sqrt (r ^ 2 + x ^ 2)) snt sn) snt vn vn sn = Real.sign x * Real.sqrt (r ^ 2 + x ^ 2) := by
+  unfold trafoZsc tVk; field_simp
+
+/-- … and exactly x as series reactance (x ≠ 0): sign(z_sc) · sqrt(z_sc² − r_sc²) = x -/
+theorem C21_trafo_x_round_trip (r x snt sn vn : ℝ) (hx : x ≠ 0) (hs : snt ≠ 0) (hn : sn ≠ 0) (hv : vn ≠ 0) :
+    Real.sign (trafoZsc (tVk (Real.sign x) (Real.sqrt (r ^ 2 + x ^ 2)) snt sn) snt vn vn sn) *
+      Real.sqrt ((trafoZsc (tVk (Real.sign x) (Real.sqrt (r ^ 2 + x ^ 2)) snt sn) snt vn vn sn) ^ 2 -
+                 (trafoZsc (tVkr r snt sn) snt vn vn sn) ^ 2) = x := by
+  rw [C21_trafo_z_round_trip r x snt sn vn hs hn hv, C21_trafo_r_round_trip r snt sn vn hs hn hv]
+  have hpos : 0 < r ^ 2 + x ^ 2 := by positivity
+  have hsq : 0 < Real.sqrt (r ^ 2 + x ^ 2) := Real.sqrt_pos.2 hpos
+  have hss : Real.sqrt (r ^ 2 + x ^ 2) ^ 2 = r ^ 2 + x ^ 2 := Real.sq_sqrt hpos.le
+  rcases lt_or_gt_of_ne hx with hneg | hposx
+  · rw [Real.sign_of_neg hneg]
+    have h1 : (-1 : ℝ) * Real.sqrt (r ^ 2 + x ^ 2) < 0 := by linarith
+    rw [Real.sign_of_neg h1]
+    have : ((-1 : ℝ) * Real.sqrt (r ^ 2 + x ^ 2)) ^ 2 - r ^ 2 = x ^ 2 := by rw [mul_pow, hss]; ring
+    rw [this, Real.sqrt_sq_eq_abs, abs_of_neg hneg]; ring
+  · rw [Real.sign_of_pos hposx]
+    have h1 : 0 < (1 : ℝ) * Real.sqrt (r ^ 2 + x ^ 2) := by linarith
+    rw [Real.sign_of_pos h1]
+    have : ((1 : ℝ) * Real.sqrt (r ^ 2 + x ^ 2)) ^ 2 - r ^ 2 = x ^ 2 := by rw [mul_pow, hss]; ring
+    rw [this, Real.sqrt_sq_eq_abs, abs_of_pos hposx]; ring
+end trafo
 
 end PPVerif.Props.C21
